@@ -43,12 +43,19 @@ Hints    == {"none", "lead", "lead_glued", "afterkw", "tail"}
 SelectProbes == {"var", "gvar", "var_upper", "mixvar"}
 ShowProbes   == {"show", "show_upper", "gshow"}
 Probes   == {"none"} \cup SelectProbes \cup ShowProbes
-Chans    == {"query", "multi_first", "multi_mid", "multi_last", "prepared"}
+Chans    == {"query", "multi_first", "multi_mid", "multi_last", "multi_after_read", "prepared"}
+                                   \* multi_after_read: a plain read precedes the statement in the same multi-statement text
 Intxs    == {"no", "begin", "ac0"}
+Sessions == {"plain", "after_read", "ks", "ks_after_read"}
+                                   \* ks: namespace in keep-session mode (the session keeps its backend connection);
+                                   \* after_read: a plain read was executed earlier in the same session
+Privs    == {"static", "reloaded"} \* reloaded: the namespace was reloaded after the session connected and the reload
+                                   \* gave the user the rw flag the descriptor names (it had the opposite one at connect time)
 
 PolDesc == [kind : Kinds, lead : Leads, kwsep : Kwseps, cs : Cases, trail : Trails,
             lock : Locks, lockopt : LockOpts, hint : Hints, probe : Probes,
-            chan : Chans, intx : Intxs, ro : BOOLEAN, split : BOOLEAN, csl : BOOLEAN]
+            chan : Chans, intx : Intxs, ro : BOOLEAN, split : BOOLEAN, csl : BOOLEAN,
+            sess : Sessions, priv : Privs]
 
 OneWord(k) == k = "begin"
 
@@ -106,8 +113,12 @@ PolReplicaOnlyReads(d) == ReplicaAllowed(d) => d.kind \in ReadKinds /\ ~InTx(d) 
 PolTotal(d) == Decision(d) \in {"reject", "master", "any"}
 
 (* decorations and channel are irrelevant: "regardless of letter case, whitespace and comments", *)
-(* "whether sent directly, inside a multi-statement query or through a prepared statement"        *)
-PolStrip(d) == [d EXCEPT !.lead = "none", !.kwsep = "space", !.cs = "lower", !.trail = "none", !.chan = "query"]
+(* "whether sent directly, inside a multi-statement query or through a prepared statement"; so is  *)
+(* the history of the session: what it executed before, whether its backend connection is kept,    *)
+(* and what the user's flags were before the configuration that is in force now: the properties    *)
+(* speak about "a user configured read-only" / "a read/write-split user", i.e. the current flags.  *)
+PolStrip(d) == [d EXCEPT !.lead = "none", !.kwsep = "space", !.cs = "lower", !.trail = "none", !.chan = "query",
+                         !.sess = "plain", !.priv = "static"]
 PolDecorationIrrelevant(d) == Decision(d) = Decision(PolStrip(d))
 
 (* each ground for the master obligation stands by itself: taking one of several grounds away    *)
@@ -132,8 +143,8 @@ PolWritesPinMaster(d) == d.kind \notin ReadKinds /\ ~MustReject(d) => MustUseMas
 
 (* defaults of the decoration / context fields: used to count how decorated a descriptor is *)
 PolDefault == [lead |-> "none", kwsep |-> "space", cs |-> "lower", trail |-> "none",
-               chan |-> "query", intx |-> "no"]
-PolDecoFields == {"lead", "kwsep", "cs", "trail", "chan", "intx"}
+               chan |-> "query", intx |-> "no", sess |-> "plain", priv |-> "static"]
+PolDecoFields == {"lead", "kwsep", "cs", "trail", "chan", "intx", "sess", "priv"}
 PolNFeat(d) == Cardinality({f \in PolDecoFields : d[f] # PolDefault[f]})
 
 (* ============================================================================================ *)
@@ -147,6 +158,8 @@ Glues          == {"none", "cmt_before", "cmt_after", "spcmt_before", "nl_before
                    "paren_after"}                      \* INSERT INTO t(col, ...)
 Positions      == {"first", "comma", "join", "subq", "from2"}
 UKinds         == {"select", "delete", "update", "insert", "replace"}
+SessionDbs     == {"rule", "other", "none"}           \* current database of the session: the one the routing rules are for /
+                                                      \* another database (no rules) / none
 
 URef == [cls : RefClasses, cs : Cases, qual : Quals, bq : BOOLEAN, glue : Glues, pos : Positions, alias : BOOLEAN]
 
@@ -163,15 +176,16 @@ UWF(d) ==
     /\ Len(d.refs) >= 1
     /\ d.refs[1].pos = "first"
     /\ \A i \in 2..Len(d.refs) : d.refs[i].pos \in LaterPositions(d.kind)
-    /\ ~d.dbset => \A i \in DOMAIN d.refs : d.refs[i].qual # "none"   \* otherwise "no database selected"
-    /\ ~d.dbset => ~(d.kind = "delete" /\ \E i \in 2..Len(d.refs) : d.refs[i].pos \in {"comma", "join"})
+    /\ d.sdb \in SessionDbs
+    /\ d.sdb = "none" => \A i \in DOMAIN d.refs : d.refs[i].qual # "none"   \* otherwise "no database selected"
+    /\ d.sdb = "none" => ~(d.kind = "delete" /\ \E i \in 2..Len(d.refs) : d.refs[i].pos \in {"comma", "join"})
                                            \* multi-table DELETE names its target by an (unqualified) alias
     /\ \A i \in DOMAIN d.refs :
           /\ d.refs[i].glue = "paren_after" => d.kind \in {"insert", "replace"} /\ i = 1
           /\ d.refs[i].alias => ~(d.kind \in {"insert", "replace"} /\ i = 1)
 
 (* the database a reference resolves in, and whether a routing rule exists for it *)
-RefInRuleDb(r, d) == IF r.qual = "none" THEN d.dbset ELSE r.qual = "db"
+RefInRuleDb(r, d) == IF r.qual = "none" THEN d.sdb = "rule" ELSE r.qual = "db"
 RefIsSharded(r, d) == r.cls \in ShardedClasses /\ RefInRuleDb(r, d)
 ParserSaysSharded(d) == \E i \in DOMAIN d.refs : RefIsSharded(d.refs[i], d)
 
@@ -200,7 +214,8 @@ UUnshardedRefsIrrelevant(d) == \A i \in DOMAIN d.refs :
 
 (* when every reference is qualified the session database does not matter *)
 USessionDbIrrelevantWhenQualified(d) ==
-    (\A i \in DOMAIN d.refs : d.refs[i].qual # "none") => ParserSaysSharded([d EXCEPT !.dbset = TRUE]) = ParserSaysSharded(d)
+    (\A i \in DOMAIN d.refs : d.refs[i].cls \in ShardedClasses => d.refs[i].qual # "none")
+       => ParserSaysSharded([d EXCEPT !.sdb = "rule"]) = ParserSaysSharded(d)
 
 URefNFeat(r) == B2N(r.cs # "lower") + B2N(r.bq) + B2N(r.glue # "none") + B2N(r.qual # "none") + B2N(r.alias)
 
